@@ -20,12 +20,15 @@ import (
 	"fmt"
 	"reflect"
 	"strings"
+	"time"
 )
 
 var (
 	_zeroBoolPinter *bool
 	_zeroValue      = reflect.ValueOf(_zeroBoolPinter).Elem()
 )
+
+var _timeType = reflect.TypeOf(time.Time{})
 
 //CodecNamable to define codec name for hessian
 type CodecNamable interface {
@@ -60,6 +63,11 @@ func ExtractTypeNameMap(v interface{}) (map[string]reflect.Type, map[string]stri
 			return false
 		}
 		typ := v.Type()
+		if typ == _timeType {
+			// a timestamp is a leaf (it travels as a date): its inner types (Location, zone, ...) are
+			// not part of the value and must not occupy the names of the caller's own types
+			return false
+		}
 		name := TypeName(typ)
 		if _, ok := typMap[name]; ok {
 			// a type is entered once; only a container whose elements are interfaces is
